@@ -8,12 +8,17 @@ package comp
 // model: dscSpecApply is the statement "previous tree + announcement -> tree" written out in Go.
 //
 // Ops (also the replay format):
-//   msg P reply|partial|full ENT* | FEAT*    ENT = addr:typ:chg:desc   FEAT = ent:id:typ:role:desc:fns
+//   msg P reply|partial|full|replyx ENT* | FEAT*   ENT = addr:typ:chg:desc   FEAT = ent:id:typ:role:desc:fns
+//       absent parts are written "-": empty entity address, missing entityType, missing parts of a feature
+//       description ("-:-:-:-:-:-" = element without description), "-=3" = supportedFunction without function;
+//       replyx = reply without deviceInformation
 //   sub|bind P cEnt cFeat sEnt sFeat          peer P's feature requests a subscription / binding (real call datagram)
 //   csub|cbind P lEnt lFeat rEnt rFeat        local client feature SubscribeToRemote / BindToRemote
-// Messages that would panic (entity without entityType, empty address, feature description without
-// address/type/role, supportedFunction without function: C05) are not generated; entity [0] is never
-// announced as removed and always listed in full notifications (the wedge of C05).
+//
+// The model is a family; ten probes on the real code select the member and the generator's domain. On the repaired
+// tree the generator also lists entity [0] as removed at any position, omits it from full notifications, re-announces
+// it with / without feature 0, and sends entries the handlers reject and malformed feature elements. On a tree that
+// still panics or wedges on one of these shapes (the pinned commit a1767d0) that shape is not generated: it is C05's.
 
 import (
 	"encoding/json"
@@ -37,7 +42,7 @@ import (
 
 var dscFTypes = map[int]model.FeatureTypeType{1: model.FeatureTypeTypeLoadControl, 2: model.FeatureTypeTypeSetpoint,
 	3: model.FeatureTypeTypeDeviceDiagnosis, 4: model.FeatureTypeTypeMeasurement, 5: model.FeatureTypeTypeElectricalConnection,
-	6: model.FeatureTypeTypeGeneric, 9: model.FeatureTypeTypeNodeManagement}
+	6: model.FeatureTypeTypeGeneric, 7: model.FeatureTypeType("Bogus"), 9: model.FeatureTypeTypeNodeManagement}
 var dscRoles = map[int]model.RoleType{0: model.RoleTypeClient, 1: model.RoleTypeServer, 2: model.RoleTypeSpecial}
 var dscFns = map[int]model.FunctionType{1: model.FunctionTypeLoadControlLimitListData, 2: model.FunctionTypeLoadControlLimitDescriptionListData,
 	3: model.FunctionTypeMeasurementListData, 4: model.FunctionTypeSetpointListData, 5: model.FunctionTypeDeviceDiagnosisHeartbeatData,
@@ -101,31 +106,49 @@ func dscOpt(n int) string {
 // ---------------------------------------------------------------- messages
 
 type dscEnt struct {
-	a    []uint
-	typ  int    // -1 = entityType omitted (removed entries only, as real devices send them)
+	a    []uint // empty = the empty entity address (rejected by the repaired code, panics at the pinned commit)
+	typ  int    // -1 = entityType omitted
 	chg  string // a r n
 	desc int    // -1 = absent
 }
-type dscFn struct{ fn, bits int } // bits -1 = possibleOperations absent; else read(0,1,2) + 3*write(0,1,2)
+type dscFn struct{ fn, bits int } // fn -1 = function absent; bits -1 = possibleOperations absent; else read(0,1,2) + 3*write(0,1,2)
 type dscFeat struct {
-	e                  []uint
-	id, typ, rol, desc int
+	e                  []uint // nil = entity part of the feature address absent
+	id, typ, rol, desc int    // -1 = absent
 	fns                []dscFn
 }
+
+// a feature element that announces a feature: address, type and role present (others are skipped by the repaired code)
+func (f dscFeat) ok() bool { return f.e != nil && f.id >= 0 && f.typ >= 0 && f.rol >= 0 }
+
+// an element without description at all
+func (f dscFeat) empty() bool {
+	return f.e == nil && f.id < 0 && f.typ < 0 && f.rol < 0 && f.desc < 0 && len(f.fns) == 0
+}
+
 type dscMsg struct {
 	peer  int
-	kind  string
+	kind  string // reply partial full; replyx = reply without deviceInformation
 	ents  []dscEnt
 	feats []dscFeat
 }
 
 func dscAddrU(s string) []uint {
+	if s == "-" {
+		return nil
+	}
 	var out []uint
 	for _, p := range strings.Split(s, ".") {
 		n, _ := strconv.Atoi(p)
 		out = append(out, uint(n))
 	}
 	return out
+}
+func dscAddrTok(a []uint) string {
+	if len(a) == 0 {
+		return "-"
+	}
+	return h.EntU(a)
 }
 func dscAtoiOpt(s string) int {
 	if s == "-" {
@@ -138,7 +161,7 @@ func dscAtoiOpt(s string) int {
 func (m dscMsg) String() string {
 	toks := []string{"msg", strconv.Itoa(m.peer), m.kind}
 	for _, e := range m.ents {
-		toks = append(toks, fmt.Sprintf("%s:%s:%s:%s", h.EntU(e.a), dscOpt(e.typ), e.chg, dscOpt(e.desc)))
+		toks = append(toks, fmt.Sprintf("%s:%s:%s:%s", dscAddrTok(e.a), dscOpt(e.typ), e.chg, dscOpt(e.desc)))
 	}
 	toks = append(toks, "|")
 	for _, f := range m.feats {
@@ -150,11 +173,11 @@ func (m dscMsg) String() string {
 				if x.bits >= 0 {
 					b = strconv.Itoa(x.bits)
 				}
-				p = append(p, fmt.Sprintf("%d=%s", x.fn, b))
+				p = append(p, fmt.Sprintf("%s=%s", dscOpt(x.fn), b))
 			}
 			fs = strings.Join(p, ",")
 		}
-		toks = append(toks, fmt.Sprintf("%s:%d:%d:%d:%s:%s", h.EntU(f.e), f.id, f.typ, f.rol, dscOpt(f.desc), fs))
+		toks = append(toks, fmt.Sprintf("%s:%s:%s:%s:%s:%s", dscAddrTok(f.e), dscOpt(f.id), dscOpt(f.typ), dscOpt(f.rol), dscOpt(f.desc), fs))
 	}
 	return strings.Join(toks, " ")
 }
@@ -172,30 +195,29 @@ func dscParseMsg(op string) (dscMsg, bool) {
 		if len(p) != 4 {
 			return m, false
 		}
-		m.ents = append(m.ents, dscEnt{dscAddrU(p[0]), dscAtoiOpt(p[1]), p[2], dscAtoiOpt(p[3])})
+		a := dscAddrU(p[0])
+		if a == nil {
+			a = []uint{}
+		}
+		m.ents = append(m.ents, dscEnt{a, dscAtoiOpt(p[1]), p[2], dscAtoiOpt(p[3])})
 	}
 	for i++; i < len(f); i++ {
 		p := strings.Split(f[i], ":")
 		if len(p) != 6 {
 			return m, false
 		}
-		ft := dscFeat{e: dscAddrU(p[0])}
-		ft.id, _ = strconv.Atoi(p[1])
-		ft.typ, _ = strconv.Atoi(p[2])
-		ft.rol, _ = strconv.Atoi(p[3])
-		ft.desc = dscAtoiOpt(p[4])
+		ft := dscFeat{e: dscAddrU(p[0]), id: dscAtoiOpt(p[1]), typ: dscAtoiOpt(p[2]), rol: dscAtoiOpt(p[3]), desc: dscAtoiOpt(p[4])}
 		if p[5] != "-" {
 			for _, x := range strings.Split(p[5], ",") {
 				kv := strings.Split(x, "=")
 				if len(kv) != 2 {
 					return m, false
 				}
-				fn, _ := strconv.Atoi(kv[0])
 				b := -1
 				if kv[1] != "x" {
 					b, _ = strconv.Atoi(kv[1])
 				}
-				ft.fns = append(ft.fns, dscFn{fn, b})
+				ft.fns = append(ft.fns, dscFn{dscAtoiOpt(kv[0]), b})
 			}
 		}
 		m.feats = append(m.feats, ft)
@@ -260,19 +282,38 @@ func (t dscTree) String() string {
 
 // dscSpecOps: what SetOperations must report for an announced supportedFunction list: per function the
 // operations of its last announcement that carries possibleOperations; functions never announced with
-// possibleOperations are absent.
+// possibleOperations are absent; an element without function announces nothing.
 func dscSpecOps(fns []dscFn) map[int]int {
 	ops := map[int]int{}
 	for _, x := range fns {
-		if x.bits >= 0 {
+		if x.bits >= 0 && x.fn >= 0 {
 			ops[x.fn] = x.bits
 		}
 	}
 	return ops
 }
 
-// dscSpecApply is Spec.Tree.apply. specified=false: the statement says nothing about this message
-// (a notification without entries, or an entry without a state change).
+func dscHasF0(fs []dscOFeat) bool {
+	for _, f := range fs {
+		if f.id == 0 {
+			return true
+		}
+	}
+	return false
+}
+
+// dscSpecApply is Spec.Tree.apply.
+//   - added => the entity exists with exactly the listed features (feature elements that lack address, type or role
+//     announce nothing); removed => absent; full notification => entities not listed are absent, listed-and-known
+//     ones unchanged, listed-and-unknown ones as added.
+//   - the device-information entity [0] stands for the device itself: it is never removed (neither by a removed entry
+//     nor by a full notification that omits it) and an announcement that would take feature 0 (node management) away
+//     from it is ignored for [0]; everything else in such a message is applied.
+//   - specified=false: the statement says nothing about this message (a partial notification without entries; an entry
+//     without state change, with the empty address, or announcing an unknown entity without entityType; a reply
+//     without deviceInformation). `next` is then what the code is known to do (entries before the offending one
+//     applied); it only steers the generator.
+//
 // events: one "+addr" for each entity that appeared, one "-addr" for each that disappeared, per entry in order.
 func dscSpecApply(prev dscTree, m dscMsg) (next dscTree, events []string, specified bool) {
 	next = dscTree{}
@@ -282,25 +323,50 @@ func dscSpecApply(prev dscTree, m dscMsg) (next dscTree, events []string, specif
 	listed := func(a string) []dscOFeat {
 		var fs []dscOFeat
 		for _, f := range m.feats {
-			if h.EntU(f.e) == a {
+			if f.ok() && h.EntU(f.e) == a {
 				fs = append(fs, dscOFeat{f.id, f.typ, f.rol, f.desc, dscSpecOps(f.fns)})
 			}
 		}
 		return fs
 	}
+	rejected := func(e dscEnt, announces bool) bool {
+		if len(e.a) == 0 {
+			return true
+		}
+		_, known := next[h.EntU(e.a)]
+		return announces && !known && e.typ < 0
+	}
 	add := func(e dscEnt) {
 		a := h.EntU(e.a)
+		fs := listed(a)
 		typ := e.typ
 		if old, ok := next[a]; ok {
+			if a == "0" && dscHasF0(old.feats) && !dscHasF0(fs) {
+				return // the device keeps its node management feature
+			}
 			typ = old.typ // an entity's type is fixed when the entity is created
 		} else {
 			events = append(events, "+"+a)
 		}
-		next[a] = &dscOEnt{addr: a, typ: typ, desc: e.desc, feats: listed(a)}
+		next[a] = &dscOEnt{addr: a, typ: typ, desc: e.desc, feats: fs}
+	}
+	remove := func(a string) {
+		if a == "0" {
+			return // the device-information entity is never removed
+		}
+		if _, ok := next[a]; ok {
+			delete(next, a)
+			events = append(events, "-"+a)
+		}
 	}
 	switch m.kind {
+	case "replyx":
+		return next, nil, false
 	case "reply":
 		for _, e := range m.ents {
+			if rejected(e, true) {
+				return next, nil, false
+			}
 			add(e)
 		}
 		return next, events, true
@@ -309,45 +375,102 @@ func dscSpecApply(prev dscTree, m dscMsg) (next dscTree, events []string, specif
 			return next, nil, false
 		}
 		for _, e := range m.ents {
-			if e.chg != "a" && e.chg != "r" {
+			if (e.chg != "a" && e.chg != "r") || rejected(e, e.chg == "a") {
 				return next, nil, false
 			}
-		}
-		for _, e := range m.ents {
 			if e.chg == "a" {
 				add(e)
-			} else if _, ok := next[h.EntU(e.a)]; ok {
-				delete(next, h.EntU(e.a))
-				events = append(events, "-"+h.EntU(e.a))
+			} else {
+				remove(h.EntU(e.a))
 			}
 		}
 		return next, events, true
 	case "full":
-		if len(m.ents) == 0 {
-			return next, nil, false
-		}
-		inMsg := map[string]bool{}
+		existing := map[string]bool{}
 		for _, e := range m.ents {
 			a := h.EntU(e.a)
-			inMsg[a] = true
-			if _, known := prev[a]; !known {
-				add(e) // listed and unknown: appears with the listed features
-			} // listed and known: unchanged
+			if _, known := prev[a]; known && len(e.a) > 0 {
+				existing[a] = true // listed and known: unchanged
+				continue
+			}
+			if rejected(e, true) {
+				return next, nil, false
+			}
+			add(e) // listed and unknown: appears with the listed features
 		}
 		var gone []string
 		for a := range prev {
-			if !inMsg[a] {
+			if !existing[a] {
 				gone = append(gone, a)
 			}
 		}
 		sort.Strings(gone)
 		for _, a := range gone {
-			delete(next, a)
-			events = append(events, "-"+a)
+			remove(a)
 		}
 		return next, events, true
 	}
 	return next, nil, false
+}
+
+// dscShapes names the special shapes a message has (input distribution of the new domain)
+func dscShapes(prev dscTree, m dscMsg) map[string]bool {
+	sh := map[string]bool{}
+	has0 := false
+	for i, e := range m.ents {
+		a := h.EntU(e.a)
+		if a == "0" {
+			has0 = true
+			fs := false
+			for _, f := range m.feats {
+				if f.ok() && h.EntU(f.e) == "0" && f.id == 0 {
+					fs = true
+				}
+			}
+			switch {
+			case e.chg == "r" && m.kind == "partial":
+				sh["[0] listed as removed"] = true
+				if i < len(m.ents)-1 {
+					sh["[0] listed as removed before other entries"] = true
+				}
+			case e.chg == "a" || m.kind == "reply":
+				if fs {
+					sh["[0] re-announced with feature 0"] = true
+				} else {
+					sh["[0] re-announced without feature 0"] = true
+				}
+			}
+		}
+		if len(e.a) == 0 {
+			sh["entry with empty address"] = true
+		}
+		if _, known := prev[a]; e.typ < 0 && !known && e.chg != "r" && len(e.a) > 0 {
+			sh["unknown entity announced without entityType"] = true
+		}
+	}
+	if m.kind == "full" && !has0 {
+		sh["full notification omits [0]"] = true
+		if len(prev) > 1 {
+			sh["full notification omits [0] while other entities are known"] = true
+		}
+	}
+	for _, f := range m.feats {
+		if !f.ok() {
+			sh["feature element without address / type / role"] = true
+		}
+		if f.typ == 7 {
+			sh["unknown feature type"] = true
+		}
+		for _, x := range f.fns {
+			if x.fn < 0 {
+				sh["supportedFunction without function"] = true
+			}
+		}
+	}
+	if m.kind == "replyx" {
+		sh["reply without deviceInformation"] = true
+	}
+	return sh
 }
 
 // dscMixed: does the message both add and remove entities (the shape of the known defect)?
@@ -490,14 +613,18 @@ func (w *dscWorld) deliver(m dscMsg) {
 	dev := util.Ptr(model.AddressDeviceType(p.dev))
 	dd := &model.NodeManagementDetailedDiscoveryDataType{DeviceInformation: &model.NodeManagementDetailedDiscoveryDeviceInformationType{
 		Description: &model.NetworkManagementDeviceDescriptionDataType{DeviceAddress: &model.DeviceAddressType{Device: dev}}}}
+	if m.kind == "replyx" {
+		dd.DeviceInformation = nil
+	}
 	withDev := (len(m.ents)+len(m.feats))%3 != 0 // the device part of entity addresses may be omitted
 	for _, e := range m.ents {
 		d := &model.NetworkManagementEntityDescriptionDataType{
 			EntityAddress: &model.EntityAddressType{Entity: spine.NewAddressEntityType(e.a)}}
+		if len(e.a) == 0 {
+			d.EntityAddress.Entity = []model.AddressEntityType{}
+		}
 		if e.typ >= 0 {
 			d.EntityType = util.Ptr(dscEType(e.typ))
-		} else if e.chg != "r" {
-			panic("entityType may only be omitted on removed entries (C05)")
 		}
 		if withDev {
 			d.EntityAddress.Device = dev
@@ -514,16 +641,37 @@ func (w *dscWorld) deliver(m dscMsg) {
 		dd.EntityInformation = append(dd.EntityInformation, model.NodeManagementDetailedDiscoveryEntityInformationType{Description: d})
 	}
 	for _, f := range m.feats {
-		ft, ro := dscFTypes[f.typ], dscRoles[f.rol]
-		fd := &model.NetworkManagementFeatureDescriptionDataType{FeatureAddress: h.FA(p.dev, f.e, uint(f.id)), FeatureType: &ft, Role: &ro}
-		if !withDev {
-			fd.FeatureAddress.Device = nil
+		if f.empty() {
+			dd.FeatureInformation = append(dd.FeatureInformation, model.NodeManagementDetailedDiscoveryFeatureInformationType{})
+			continue
+		}
+		fd := &model.NetworkManagementFeatureDescriptionDataType{FeatureAddress: &model.FeatureAddressType{}}
+		if withDev {
+			fd.FeatureAddress.Device = dev
+		}
+		if f.e != nil {
+			fd.FeatureAddress.Entity = spine.NewAddressEntityType(f.e)
+		}
+		if f.id >= 0 {
+			fd.FeatureAddress.Feature = util.Ptr(model.AddressFeatureType(f.id))
+		}
+		if f.e == nil && f.id < 0 {
+			fd.FeatureAddress = nil
+		}
+		if f.typ >= 0 {
+			fd.FeatureType = util.Ptr(dscFTypes[f.typ])
+		}
+		if f.rol >= 0 {
+			fd.Role = util.Ptr(dscRoles[f.rol])
 		}
 		if f.desc >= 0 {
 			fd.Description = util.Ptr(model.DescriptionType(fmt.Sprintf("D%d", f.desc)))
 		}
 		for _, x := range f.fns {
-			fp := model.FunctionPropertyType{Function: util.Ptr(dscFns[x.fn])}
+			fp := model.FunctionPropertyType{}
+			if x.fn >= 0 {
+				fp.Function = util.Ptr(dscFns[x.fn])
+			}
 			if x.bits >= 0 {
 				po := &model.PossibleOperationsType{}
 				switch x.bits % 3 {
@@ -548,7 +696,7 @@ func (w *dscWorld) deliver(m dscMsg) {
 	hd := model.HeaderType{AddressSource: h.FA(p.dev, []uint{0}, 0), AddressDestination: h.FA(dscLocalDev, []uint{0}, 0), MsgCounter: util.Ptr(model.MsgCounterType(p.ctr))}
 	c := model.CmdType{NodeManagementDetailedDiscoveryData: dd}
 	switch m.kind {
-	case "reply":
+	case "reply", "replyx":
 		hd.CmdClassifier = util.Ptr(model.CmdClassifierTypeReply)
 		hd.MsgCounterReference = util.Ptr(model.MsgCounterType(1))
 	case "partial":
@@ -609,7 +757,11 @@ func (w *dscWorld) observeTree(pn int) (dscTree, string, []string) {
 		if _, dup := t[a]; dup {
 			problems = append(problems, "entity "+a+" reported twice")
 		}
-		if e.Address().Device == nil || string(*e.Address().Device) != p.dev {
+		// entity [0] exists before the device address is known and receives it from the first ACCEPTED reply that lists
+		// it (a reply rejected at an earlier entry sets the device's address but not yet that of [0]): no device part
+		// is tolerated there
+		nilOK := a == "0" && e.Address().Device == nil
+		if (e.Address().Device == nil || string(*e.Address().Device) != p.dev) && !nilOK {
 			// before the first reply the device address is unknown; afterwards it must be the peer's
 			if p.rdev.Address() != nil {
 				problems = append(problems, "entity "+a+" carries a wrong device address")
@@ -645,7 +797,7 @@ func (w *dscWorld) observeTree(pn int) (dscTree, string, []string) {
 			if h.EntStr(fa.Entity) != a {
 				problems = append(problems, fmt.Sprintf("feature %s/%d carries entity address %s", a, of.id, h.EntStr(fa.Entity)))
 			}
-			if p.rdev.Address() != nil && (fa.Device == nil || string(*fa.Device) != p.dev) {
+			if p.rdev.Address() != nil && (fa.Device == nil || string(*fa.Device) != p.dev) && !(a == "0" && fa.Device == nil) {
 				problems = append(problems, fmt.Sprintf("feature %s/%d carries a wrong device address", a, of.id))
 			}
 			if f.Entity() != e || f.Device() != p.rdev {
@@ -773,7 +925,10 @@ func keys(m map[string]bool) []string {
 
 // ---------------------------------------------------------------- one history
 
-type dscStats struct{ cascadeSteps, removedEntities, mixed, cascadeHist, hist, readdOtherType, noType int }
+type dscStats struct {
+	cascadeSteps, removedEntities, mixed, cascadeHist, hist, readdOtherType, noType int
+	shapes                                                                          map[string]int
+}
 
 // runDscHistory executes ops on a fresh world and on the model, judges every discovery message by the
 // SPEC monitor and compares observations with the model. d may be nil (probe / shrink without model).
@@ -821,6 +976,9 @@ func runDscHistory(r *h.Report, d *h.Driver, ops []string, st *dscStats) {
 				st.mixed++
 			}
 			if st != nil {
+				for k := range dscShapes(prev, m) {
+					st.shapes[k]++
+				}
 				for _, e := range m.ents {
 					if old, ok := prev[h.EntU(e.a)]; ok && e.chg != "r" && m.kind != "full" && e.typ != old.typ && e.typ > 0 {
 						st.readdOtherType++
@@ -855,6 +1013,11 @@ func runDscHistory(r *h.Report, d *h.Driver, ops []string, st *dscStats) {
 				}
 				if got.String() != prev.String() {
 					kind += ":changed"
+				}
+			}
+			if old, ok := prev["0"]; ok && dscHasF0(old.feats) {
+				if now, ok := got["0"]; !ok || !dscHasF0(now.feats) {
+					r.SpecFail("C06/device-information-lost", done, fmt.Sprintf("peer %d after %s: entity [0] with feature 0 was known, the API now reports %s - no message of this peer will be accepted any more", m.peer, m.kind, got))
 				}
 			}
 			for _, pr := range problems {
@@ -999,6 +1162,154 @@ func (g *dscGen) feats(a []uint) []dscFeat {
 
 var dscAddrs = [][]uint{{1}, {2}, {1, 1}, {1, 2}}
 
+// dscCaps: what the tree under test can be given without panicking or wedging (probed). All false = the pinned
+// commit: the generator then stays inside the domain of the first round.
+type dscCaps struct{ rmDev, refresh, emptyAddr, noType, featParts, fnNoFn, unknownType, noDevInfo bool }
+
+var dscCap dscCaps
+
+// features announced for the device-information entity: with or without feature 0, possibly others
+func (g *dscGen) devInfoFeats() []dscFeat {
+	r := g.rng
+	var fs []dscFeat
+	if r.Intn(2) == 0 {
+		fs = append(fs, dscFeat{e: []uint{0}, id: 0, typ: 9, rol: 2, desc: r.Intn(3) - 1})
+	}
+	for i, n := 0, r.Intn(3); i < n; i++ {
+		fs = append(fs, dscFeat{e: []uint{0}, id: 1 + i, typ: 1 + r.Intn(6), rol: r.Intn(2), desc: -1})
+	}
+	return fs
+}
+
+// extend perturbs a message of the first-round domain with the shapes the repaired tree handles: [0] listed as
+// removed anywhere, omitted from a full notification, re-announced with / without feature 0; rejected entries;
+// malformed feature elements.
+func (g *dscGen) extend(m *dscMsg) {
+	r, c := g.rng, dscCap
+	insert := func(e dscEnt) {
+		i := r.Intn(len(m.ents) + 1)
+		m.ents = append(m.ents[:i], append([]dscEnt{e}, m.ents[i:]...)...)
+	}
+	drop0 := func() {
+		var es []dscEnt
+		for _, e := range m.ents {
+			if h.EntU(e.a) != "0" {
+				es = append(es, e)
+			}
+		}
+		m.ents = es
+		var fs []dscFeat
+		for _, f := range m.feats {
+			if f.e == nil || h.EntU(f.e) != "0" {
+				fs = append(fs, f)
+			}
+		}
+		m.feats = fs
+	}
+	switch m.kind {
+	case "partial":
+		if c.rmDev && r.Intn(100) < 14 {
+			e := dscEnt{[]uint{0}, 0, "r", -1}
+			if r.Intn(2) == 0 {
+				e.typ = -1
+			}
+			insert(e)
+		}
+		if c.refresh && r.Intn(100) < 8 {
+			insert(dscEnt{[]uint{0}, 0, "a", r.Intn(3) - 1})
+			m.feats = append(m.feats, g.devInfoFeats()...)
+		}
+		if c.noType {
+			for i := range m.ents {
+				if m.ents[i].chg == "r" && r.Intn(2) == 0 {
+					m.ents[i].typ = -1 // removed entries carry the address only, also next to added entries
+				}
+			}
+		}
+	case "full":
+		if c.rmDev && r.Intn(100) < 18 {
+			drop0()
+			if r.Intn(4) == 0 {
+				m.ents, m.feats = nil, nil // lists nothing at all
+			}
+		} else if c.rmDev {
+			r.Shuffle(len(m.ents), func(i, j int) { m.ents[i], m.ents[j] = m.ents[j], m.ents[i] })
+		}
+	case "reply":
+		if c.refresh && r.Intn(100) < 20 {
+			var e0 []dscEnt
+			for _, e := range m.ents {
+				if h.EntU(e.a) == "0" {
+					e0 = append(e0, e)
+				}
+			}
+			drop0()
+			for _, e := range e0 {
+				insert(e)
+			}
+			m.feats = append(m.feats, g.devInfoFeats()...)
+		}
+	}
+	if r.Intn(100) < 7 {
+		switch k := r.Intn(2); {
+		case k == 0 && c.emptyAddr:
+			insert(dscEnt{[]uint{}, 1 + r.Intn(3), []string{"a", "r", "n"}[r.Intn(3)], -1})
+		case k == 1 && c.noType:
+			a := dscAddrs[r.Intn(len(dscAddrs))] // unknown with some probability: then the entry is rejected
+			chg := "a"
+			if m.kind != "partial" {
+				chg = "n"
+			}
+			insert(dscEnt{a, -1, chg, -1})
+		}
+	}
+	if c.featParts && r.Intn(100) < 12 {
+		for i, n := 0, 1+r.Intn(2); i < n; i++ {
+			f := dscFeat{e: dscAddrs[r.Intn(len(dscAddrs))], id: 1 + r.Intn(3), typ: 1 + r.Intn(6), rol: r.Intn(2), desc: -1}
+			if len(m.ents) > 0 && len(m.ents[0].a) > 0 {
+				f.e = m.ents[r.Intn(len(m.ents))].a
+				if len(f.e) == 0 {
+					f.e = []uint{1}
+				}
+			}
+			switch r.Intn(6) {
+			case 0:
+				f.e = nil
+			case 1:
+				f.id = -1
+			case 2:
+				f.typ = -1
+			case 3:
+				f.rol = -1
+			case 4:
+				f.e, f.id = nil, -1
+			default:
+				f = dscFeat{id: -1, typ: -1, rol: -1, desc: -1}
+			}
+			j := r.Intn(len(m.feats) + 1)
+			m.feats = append(m.feats[:j], append([]dscFeat{f}, m.feats[j:]...)...)
+		}
+	}
+	if c.fnNoFn && len(m.feats) > 0 && r.Intn(100) < 10 {
+		j := r.Intn(len(m.feats))
+		if !m.feats[j].empty() {
+			m.feats[j].fns = append(m.feats[j].fns, dscFn{-1, r.Intn(9)})
+			if r.Intn(2) == 0 {
+				m.feats[j].fns = append(m.feats[j].fns, dscFn{1 + r.Intn(6), r.Intn(9)})
+			}
+		}
+	}
+	if c.unknownType && len(m.feats) > 0 && r.Intn(100) < 6 {
+		j := r.Intn(len(m.feats))
+		if m.feats[j].ok() && m.feats[j].id != 0 {
+			m.feats[j].typ = 7
+		}
+	}
+	if c.noDevInfo && m.kind == "reply" && r.Intn(100) < 3 {
+		m.kind = "replyx"
+	}
+}
+
 func (g *dscGen) entTyp(p int, a []uint) int {
 	if e, ok := g.tree[p][h.EntU(a)]; ok && g.rng.Intn(10) < 7 {
 		return e.typ
@@ -1070,6 +1381,7 @@ func (g *dscGen) msg(p int, kind string) dscMsg {
 		}
 		r.Shuffle(len(m.feats), func(i, j int) { m.feats[i], m.feats[j] = m.feats[j], m.feats[i] })
 	}
+	g.extend(&m)
 	return m
 }
 
@@ -1254,6 +1566,93 @@ var dscCorpus = map[string][]string{
 	},
 }
 
+// witnesses and corpus of the second round: shapes the repaired tree handles (run only when the probes say so)
+var dscCorpus2 = map[string][]string{
+	// probe witnesses
+	"probe:rmdev":         {"msg 1 reply 0:0:n:- 1:1:n:- | " + dscNM, "msg 1 partial 0:-:r:- | "},
+	"probe:rmdev-full":    {"msg 1 reply 0:0:n:- 1:1:n:- | " + dscNM, "msg 1 full 1:1:n:- | "},
+	"probe:refresh":       {"msg 1 reply 0:0:n:- | " + dscNM, "msg 1 partial 0:0:a:- | 0:1:1:1:-:-"},
+	"probe:refresh-empty": {"msg 1 reply 0:0:n:- | " + dscNM, "msg 1 partial 0:0:a:- | "},
+	"probe:refresh-reply": {"msg 1 reply 0:0:n:- | " + dscNM, "msg 1 reply 0:0:n:- 1:1:n:- | 0:1:1:1:-:-"},
+	"probe:emptyAddr":     {"msg 1 reply 0:0:n:- | " + dscNM, "msg 1 partial -:1:a:- | ", "msg 1 partial -:1:r:- | ", "msg 1 reply 0:0:n:- -:1:n:- | " + dscNM, "msg 1 full 0:0:n:- -:1:n:- | " + dscNM},
+	"probe:noType":        {"msg 1 reply 0:0:n:- | " + dscNM, "msg 1 partial 1:-:a:- | ", "msg 1 reply 0:0:n:- 1:-:n:- | " + dscNM, "msg 1 full 0:0:n:- 1:-:n:- | " + dscNM},
+	"probe:featParts":     {"msg 1 reply 0:0:n:- 1:1:n:- | " + dscNM + " -:1:1:1:-:- 1:-:1:1:-:- 1:1:-:1:-:- 1:1:1:-:-:- -:-:1:1:-:- -:-:-:-:-:- 1:2:1:1:-:-"},
+	"probe:fnNoFn":        {"msg 1 reply 0:0:n:- 1:1:n:- | " + dscNM + " 1:1:1:1:-:-=4,1=1"},
+	"probe:unknownType":   {"msg 1 reply 0:0:n:- 1:1:n:- | " + dscNM + " 1:1:7:1:-:1=1"},
+	"probe:noDevInfo":     {"msg 1 replyx 0:0:n:- 1:1:n:- | " + dscNM},
+	// [0] listed as removed between other entries: it stays, the entries before AND after it are processed with
+	// the full cascade and events
+	"devinfo:removed-in-the-middle": {
+		"msg 1 reply 0:0:n:- 1:1:n:- 2:1:n:- 1.1:2:n:- | " + dscNM + " 1:1:6:0:-:- 2:1:6:0:-:- 1.1:1:6:0:-:-",
+		"msg 2 reply 0:0:n:- 1:1:n:- 2:1:n:- | " + dscNM + " 1:1:6:0:-:- 2:1:6:0:-:-",
+		"sub 1 1 1 1 1", "sub 1 2 1 1 2", "bind 1 2 1 1 1", "bind 1 1.1 1 1 2", "sub 2 2 1 1 1", "bind 2 2 1 2 1", "csub 1 1 5 2 1", "cbind 1 1 5 1 1",
+		"msg 1 partial 1:-:r:- 0:-:r:- 2:-:r:- | ",
+		"msg 1 partial 0:0:r:- 1.1:-:r:- 1:1:a:2 | 1:1:1:1:-:1=1",
+		"msg 1 partial 1:-:r:- 0:-:r:- | ",
+		"msg 1 partial 0:-:r:- | ",
+	},
+	// full notifications that omit [0], alone or together with other entities, or list nothing
+	"devinfo:full-omits": {
+		"msg 1 reply 0:0:n:- 1:1:n:- 2:1:n:- | " + dscNM + " 1:1:6:0:-:- 2:1:6:0:-:-",
+		"sub 1 1 1 1 1", "bind 1 2 1 1 1", "csub 1 1 5 1 1",
+		"msg 1 full 1:1:n:- 2:1:n:- | 1:1:6:0:-:-",
+		"msg 1 full 2:1:n:- 1.1:2:n:3 | 1.1:1:1:1:-:1=4",
+		"msg 1 full 0:0:n:- 2:1:n:- 1.1:2:n:- | " + dscNM,
+		"msg 1 full | ",
+		"msg 1 partial 1:1:a:- | 1:1:1:1:-:-",
+	},
+	// re-announcements of [0] with and without feature 0; the other entries of the message are processed
+	"devinfo:reannounced": {
+		"msg 1 reply 0:0:n:- 1:1:n:- | " + dscNM + " 1:1:6:0:-:-",
+		"msg 1 partial 0:0:a:1 2:1:a:- | 0:1:1:1:-:- 2:1:1:1:-:-",
+		"msg 1 partial 2:-:r:- 0:0:a:2 1.1:1:a:- | 1.1:1:1:1:-:-",
+		"msg 1 partial 0:0:a:3 | " + dscNM + " 0:1:1:1:-:1=1",
+		"msg 1 partial 0:0:a:- | 0:0:1:1:4:-",
+		"msg 1 reply 0:0:n:5 1:1:n:- 1.2:1:n:- | 0:2:1:1:-:- 1:2:1:1:-:-",
+		"msg 1 reply 1.2:1:n:- 0:0:n:6 | " + dscNM + " 0:3:4:0:-:-",
+		"msg 1 full 0:0:n:7 1:1:n:- | 0:5:1:1:-:-",
+	},
+	// entries the repaired handlers reject: the entries before are applied, the entries after are not
+	"malformed:rejected-entries": {
+		"msg 1 reply 0:0:n:- 1:1:n:- | " + dscNM + " 1:1:6:0:-:-",
+		"sub 1 1 1 1 1",
+		"msg 1 partial 2:1:a:- -:1:a:- 1.1:1:a:- | 2:1:1:1:-:-",
+		"msg 1 partial 1:-:r:- 1.2:-:a:- 2:-:r:- | ",
+		"msg 1 partial 2:-:r:- -:-:r:- 1.1:1:a:- | ",
+		"msg 1 partial 2:-:a:- 1.1:1:a:- | ",
+		"msg 1 partial 1:-:a:4 | 1:1:1:1:-:-",
+		"msg 1 reply 0:0:n:- 1.1:1:n:- 1.2:-:n:- 2:1:n:- | " + dscNM,
+		"msg 1 reply 0:0:n:- 2:2:n:- -:1:n:- 1.2:1:n:- | " + dscNM,
+		"msg 1 full 0:0:n:- 1:1:n:- 1.2:-:n:- | " + dscNM,
+		"msg 1 full 0:0:n:- 1.2:1:n:- -:1:n:- | " + dscNM,
+		"msg 1 replyx 0:0:n:- 1:1:n:- | " + dscNM,
+	},
+	// feature elements and supportedFunction entries that are skipped
+	"malformed:features": {
+		"msg 1 reply 0:0:n:- 1:1:n:- | " + dscNM + " -:1:1:1:-:- 1:-:1:1:-:- 1:1:-:1:-:- 1:1:1:-:-:- -:-:1:1:-:- -:-:-:-:-:- 1:2:1:1:-:-=4,1=1,-=x,2=x 1:3:7:0:2:1=4",
+		"msg 1 partial 1:1:a:- 2:1:a:- | 1:1:1:1:-:1=1 -:-:-:-:-:- 2:-:1:1:-:- 2:1:6:0:-:-=1",
+		"msg 1 full 0:0:n:- 1.1:1:n:- | " + dscNM + " 1.1:1:-:1:-:- 1.1:2:7:1:-:-",
+	},
+}
+
+var dscCorpus2Order = []string{"devinfo:removed-in-the-middle", "devinfo:full-omits", "devinfo:reannounced", "malformed:rejected-entries", "malformed:features"}
+
+// which capabilities a corpus history of the second round needs
+func dscCorpus2Runnable(name string) bool {
+	c := dscCap
+	switch name {
+	case "devinfo:removed-in-the-middle", "devinfo:full-omits":
+		return c.rmDev && c.noType
+	case "devinfo:reannounced":
+		return c.rmDev && c.refresh && c.noType
+	case "malformed:rejected-entries":
+		return c.emptyAddr && c.noType && c.noDevInfo
+	case "malformed:features":
+		return c.featParts && c.fnNoFn && c.unknownType
+	}
+	return false
+}
+
 var dscCorpusOrder = []string{"mixed:added-then-removed", "mixed:removed-then-added", "mixed:full", "cascade:binding-other-peer", "cascade:two-peers", "nested-repeated-unknown"}
 
 // ---------------------------------------------------------------- probes (select the member of the model family)
@@ -1284,45 +1683,101 @@ func dscProbe(r *h.Report, name, key string, witnesses ...string) bool {
 	return on
 }
 
-func dscProbeAll(r *h.Report) (bool, bool) {
+// a capability of the tree under test: its witnesses neither panic nor lose the device-information entity.
+// Losing the device-information entity contradicts the SPEC ([0] is never removed, never loses feature 0): that is
+// reported as a spec failure with the witness; a panic on a malformed shape is C05's business and only narrows the
+// generator's domain.
+func dscProbeCap(r *h.Report, name string, witnesses ...string) bool {
+	bad := ""
+	var badOps []string
+	for _, wn := range witnesses {
+		q := h.Quiet()
+		runDscHistory(q, nil, dscCorpus2[wn], nil)
+		for _, sf := range q.SpecFailures {
+			if (sf.Key == "C06/panic" || sf.Key == "C06/device-information-lost") && bad == "" {
+				bad, badOps = sf.Detail, sf.Ops
+				if sf.Key == "C06/device-information-lost" {
+					r.SpecFail(sf.Key, sf.Ops, sf.Detail)
+				}
+			}
+		}
+	}
+	if bad == "" {
+		badOps = dscCorpus2[witnesses[0]]
+	}
+	r.SetFlag(name, bad != "", badOps, "on = the pinned behaviour (panic / device information lost): this shape is not generated. "+bad)
+	return bad == ""
+}
+
+// dscProbeAll selects the member of the model family and the generator's domain; returns the driver arguments
+func dscProbeAll(r *h.Report) []string {
 	whole := dscProbe(r, "wholeMessage", "C06/mixed-add-remove-notification", "mixed:added-then-removed", "mixed:removed-then-added", "mixed:full")
 	bindent := dscProbe(r, "bindEntityOnly", "C06/cascade-binding-other-peer", "cascade:binding-other-peer")
-	return whole, bindent
+	c := dscCaps{
+		rmDev:       dscProbeCap(r, "removesDevInfo", "probe:rmdev", "probe:rmdev-full"),
+		refresh:     dscProbeCap(r, "refreshUnguarded", "probe:refresh", "probe:refresh-empty", "probe:refresh-reply"),
+		emptyAddr:   dscProbeCap(r, "panics:emptyEntityAddress", "probe:emptyAddr"),
+		noType:      dscProbeCap(r, "panics:newEntityWithoutType", "probe:noType"),
+		featParts:   dscProbeCap(r, "panics:featureElementParts", "probe:featParts"),
+		fnNoFn:      dscProbeCap(r, "panics:supportedFunctionWithoutFunction", "probe:fnNoFn"),
+		unknownType: dscProbeCap(r, "panics:unknownFeatureType", "probe:unknownType"),
+		noDevInfo:   dscProbeCap(r, "panics:replyWithoutDeviceInformation", "probe:noDevInfo"),
+	}
+	args := []string{fmt.Sprintf("whole=%d", h.B2i(whole)), fmt.Sprintf("bindent=%d", h.B2i(bindent)),
+		fmt.Sprintf("rmdev=%d", h.B2i(!c.rmDev)), fmt.Sprintf("refresh=%d", h.B2i(!c.refresh))}
+	if whole {
+		// the handler over the whole message is modelled on the first-round domain only
+		c = dscCaps{}
+	}
+	dscCap = c
+	r.Info["generator domain"] = fmt.Sprintf("%+v", c)
+	return args
 }
 
 func TestDiscovery(t *testing.T) {
 	r := h.NewReport("discovery", "histories of 8-30 ops on a real DeviceLocal with two connected peers that use identical entity / feature numbering: "+
 		"detailed-discovery replies, partial notifications (1-3 entries, added / removed mixed in either order, repeated adds, repeated and unknown removals, "+
-		"same address twice) and full notifications over entity addresses [1],[2],[1,1],[1,2] (+[0]), 0-3 features per entity from 6 feature types with roles, "+
-		"descriptions and 0-3 supportedFunction entries (read/write plain or partial, possibleOperations absent, function repeated), interleaved with real "+
-		"subscription / binding request calls of the peers' features and SubscribeToRemote / BindToRemote of local client features. After every discovery "+
-		"message: (SPEC, model-free) the tree the API reports (Entities/Features/Address/EntityType/Type/Role/Description/Operations, resolvability by "+
-		"Entity()/FeatureByAddress()) = Spec.Tree.apply(previous reported tree, announcement); entity-added/removed events of the step as a multiset = the "+
-		"entities that appeared / disappeared, all carrying the sender's SKI; the other peer's tree unchanged; Subscriptions()/Bindings() of both peers and "+
-		"HasSubscriptionToRemote/HasBindingToRemote of the local client features = previous minus the entries that refer to (sender, removed entity); "+
-		"(correspondence) tree in API order, events, registries compared with Spine.Disc.World.step of the member selected by the probes. "+
-		"Not generated: messages that panic (missing entityType / addresses / type / role / function: C05), removal of entity [0] and full notifications "+
-		"without [0] (wedge: C05), entries without a state change only in 1 of 40 partial notifications (statement silent: compared with the model only). "+
-		"non-trivial = a history in which an entity removal changed a registry or the client-side bookkeeping (distinct by op text)")
+		"same address twice, removed entries with and without entityType) and full notifications over entity addresses [1],[2],[1,1],[1,2] (+[0]), 0-3 "+
+		"features per entity from 6 feature types (+ an unknown one) with roles, descriptions and 0-3 supportedFunction entries (read/write plain or partial, "+
+		"possibleOperations absent, function repeated), interleaved with real subscription / binding request calls of the peers' features and "+
+		"SubscribeToRemote / BindToRemote of local client features. Where the probes find the tree repaired (HEAD: all of them): entity [0] listed as removed "+
+		"at any position among other entries, full notifications that omit [0] alone, with other entities or list nothing, re-announcements of [0] with and "+
+		"without feature 0 (partial and reply), entries the handlers reject (empty address, unknown entity without entityType, no state change; reply without "+
+		"deviceInformation) at any position, feature elements without address / number / type / role / description, supportedFunction without function. "+
+		"After every discovery message: (SPEC, model-free) the tree the API reports (Entities/Features/Address/EntityType/Type/Role/Description/Operations, "+
+		"resolvability by Entity()/FeatureByAddress()) = Spec.Tree.apply(previous reported tree, announcement), where [0] is never removed and never loses "+
+		"feature 0 and malformed feature elements announce nothing; entity-added/removed events of the step as a multiset = the entities that appeared / "+
+		"disappeared, all carrying the sender's SKI; [0] with feature 0 still there; the other peer's tree unchanged; Subscriptions()/Bindings() of both peers "+
+		"and HasSubscriptionToRemote/HasBindingToRemote of the local client features = previous minus the entries that refer to (sender, removed entity); "+
+		"(correspondence) tree in API order, events, registries compared with Spine.Disc.World.stepG of the member selected by the probes. Messages with a "+
+		"rejected entry are outside the statement (dist key ':unspecified'): tree and events are compared with the model only (the code applies the entries "+
+		"before the rejected one and drops the rest), the other SPEC clauses still apply. Not generated: entity elements without description, device-address "+
+		"mismatch, maxResponseDelay. non-trivial = a history in which an entity removal changed a registry or the client-side bookkeeping (distinct by op text)")
 	defer r.Write()
 	if ops := h.ReplayOps("discovery"); ops != nil {
-		whole, bindent := dscProbeAll(r)
-		d := h.StartDriver("drv_disc", fmt.Sprintf("whole=%d", h.B2i(whole)), fmt.Sprintf("bindent=%d", h.B2i(bindent)))
+		d := h.StartDriver("drv_disc", dscProbeAll(r)...)
 		defer d.Close()
 		runDscHistory(r, d, ops, nil)
 		return
 	}
 	// probe phase: which member of the family is the tree under test?
-	whole, bindent := dscProbeAll(r)
-	d := h.StartDriver("drv_disc", fmt.Sprintf("whole=%d", h.B2i(whole)), fmt.Sprintf("bindent=%d", h.B2i(bindent)))
+	d := h.StartDriver("drv_disc", dscProbeAll(r)...)
 	defer d.Close()
 	if a := d.Ask("nonsense"); a != "bad-op" {
 		panic("drv_disc answers an unknown op with " + a)
 	}
-	st := &dscStats{}
+	st := &dscStats{shapes: map[string]int{}}
 	// corpus first
 	for _, name := range dscCorpusOrder {
 		runDscHistory(r, d, dscCorpus[name], st)
+	}
+	for _, name := range dscCorpus2Order {
+		if dscCorpus2Runnable(name) {
+			runDscHistory(r, d, dscCorpus2[name], st)
+			r.Info["corpus "+name] = "run"
+		} else {
+			r.Info["corpus "+name] = "not run: the tree under test panics or wedges on it (C05)"
+		}
 	}
 	rng := h.Rng(6)
 	hist := h.Scale(900, 9000)
@@ -1371,6 +1826,9 @@ func TestDiscovery(t *testing.T) {
 	}
 	r.Info["known entities re-announced as added with another entityType (SPEC: type is kept)"] = st.readdOtherType
 	r.Info["removed entries without entityType"] = st.noType
+	for k, v := range st.shapes {
+		r.Info["shape: "+k] = v
+	}
 	r.Info["entities removed"] = st.removedEntities
 	r.Info["steps in which a removal changed a registry or the client-side bookkeeping"] = st.cascadeSteps
 	r.Info["messages that add and remove in one notification"] = st.mixed
